@@ -23,7 +23,7 @@ def run(ctx):
         res = vlib.run_tlc("DistMerge", f"DistMerge_{fam}_{ctx.tier}.cfg", workers=6, timeout=2400)
         vlib.tlc_must_pass(res, f"DistMerge/{fam}")
         ctx.tlc_stats(res, f"DistMerge {fam}: partial/final split equals the single-node answer for every sharding of every small table")
-    sqlprop.run_sql_property(ctx, corpus=['scan', 'agg', 'order', 'cjoins', 'distshapes'], seeded=[], cfgs=sqlprop.DIST, quick_n=60, thorough_n=1000,
+    sqlprop.run_sql_property(ctx, corpus=['scan', 'agg', 'order', 'cjoins', 'distshapes'], seeded=[], cfgs=sqlprop.DIST, quick_n=110, thorough_n=1000,
         envs=None, cross=dist_cross,
         rule='Each corpus case is executed through execute_any_distributed with an in-process fragment transport (execute_fragment on a second context over the same Parquet files, Arrow IPC round trip) for clusters of 1,2,3,4,8 participants over several row-group layouts (idle nodes and empty shards arise); the answer must be allowed by SqlSem (order where ORDER BY fixes it) or a refusal.')
 
